@@ -342,6 +342,22 @@ def run_program(case):
         else:
             same = r2.array.shape == res.array.shape and np.array_equal(r2.array, res.array) and r2.tensor_shape == res.tensor_shape and sorted(r2._covariant_indices) == sorted(res._covariant_indices)
             ck.check(same, f"diagram:{cname}:same-result" + tag, (r2.array.shape, res.array.shape, r2.tensor_shape, res.tensor_shape))
+    # ... and a diagram and its copy are independent of each other: an edge added to the copy (the first still possible one) changes what the
+    # copy denotes, the original still denotes the same sum
+    ext = next(((s_, t_) for s_ in order for t_ in order if unused[s_][0] and unused[t_][1] and metas[s_]["shape"][unused[s_][0][0]] == metas[t_]["shape"][unused[t_][1][0]]), None)
+    if ext is not None:
+        def extended():
+            d2 = d.copy()
+            d2.add_edge(objs[ext[0]], objs[ext[1]])
+            return d2.calculate(), d.calculate()
+
+        r3, f = call("diagram:copy-extended", extended)
+        if f:
+            ck.add(f)
+        else:
+            same = r3[1].array.shape == res.array.shape and np.array_equal(r3[1].array, res.array) and r3[1].tensor_shape == res.tensor_shape
+            ck.check(same, "diagram:original-changed-by-an-edge-added-to-its-copy" + tag, (r3[1].array.shape, res.array.shape))
+            ck.check(r3[0].array.ndim == res.array.ndim - 2, "diagram:copy-extended:rank", (r3[0].array.shape, res.array.shape))
     # operands untouched
     for o, a, n in zip(objs, arrays, nodes):
         if "ent" in n and not n.get("dt"):
